@@ -246,7 +246,7 @@ Lemma WInv_step s o : WInv s -> wop_ok o -> WInv (fst (wstep s o)) /\ wbad (snd 
 Proof.
   intros HI Hok. pose proof HI as [Hc Hs Hp]. destruct o; cbn [wstep].
   - destruct (WInv_write_all_defer_err s bs HI) as (H1 & H2 & _). rewrite H2. split; [exact H1|reflexivity].
-  - unfold ascii_digits. cbn [wop_ok] in Hok.
+  - unfold write_ascii_digits. cbn [wop_ok] in Hok.
     destruct (decimal_canonical v) as (_ & Hlen & _). specialize (Hlen t Hok).
     destruct (nlen (wbuf s) + max_len t <=? wcap s) eqn:Hfast.
     + apply N.leb_le in Hfast.
@@ -385,7 +385,7 @@ Lemma WExact_step s o : WInv s -> WExact s -> wop_ok o -> WExact (fst (wstep s o
 Proof.
   intros HI HE Hok. pose proof HE as [HG He Ha]. destruct o; cbn [wstep].
   - apply WExact_write_all_defer_err; assumption.
-  - unfold ascii_digits. destruct (nlen (wbuf s) + max_len t <=? wcap s).
+  - unfold write_ascii_digits. destruct (nlen (wbuf s) + max_len t <=? wcap s).
     + destruct (nlen (wbuf s) + nlen (decimal v) <=? wcap s); [|exact HE].
       constructor; cbn [fst with_written with_buf wsink werr wbuf g_written]; auto.
       rewrite app_assoc, Ha. reflexivity.
@@ -484,7 +484,7 @@ Proof.
   destruct o; cbn [wstep].
   - unfold write_all_defer_err. destruct (Hput bs) as [H1 H2]. destruct (put s bs) as [s' v]. cbn [fst] in *.
     split; assumption.
-  - unfold ascii_digits. destruct (nlen (wbuf s) + max_len t <=? wcap s).
+  - unfold write_ascii_digits. destruct (nlen (wbuf s) + max_len t <=? wcap s).
     + destruct (nlen (wbuf s) + nlen (decimal v) <=? wcap s); split; try reflexivity; exact He.
     + unfold write_all_defer_err. destruct (Hput (decimal v)) as [H1 H2]. destruct (put s (decimal v)) as [s' v'].
       cbn [fst] in *. split; assumption.
@@ -502,7 +502,7 @@ Theorem writes_always_succeed s o :
 Proof.
   intros HI Hok. destruct o; try exact I; cbn [wstep].
   - apply (WInv_write_all_defer_err s bs HI).
-  - unfold ascii_digits. cbn [wop_ok] in Hok.
+  - unfold write_ascii_digits. cbn [wop_ok] in Hok.
     destruct (decimal_canonical v) as (_ & Hlen & _). specialize (Hlen t Hok).
     destruct (nlen (wbuf s) + max_len t <=? wcap s) eqn:Hfast.
     + apply N.leb_le in Hfast.
